@@ -27,8 +27,10 @@ type roObs struct {
 	Note  string              `json:"note"`
 }
 
-func (ReconfOut) Name() string                    { return "ReconfOut" }
-func (ReconfOut) MC(tier string) (string, string) { return "MC_ReconfOut.tla", "MC_ReconfOut_" + tier + ".cfg" }
+func (ReconfOut) Name() string { return "ReconfOut" }
+func (ReconfOut) MC(tier string) (string, string) {
+	return "MC_ReconfOut.tla", "MC_ReconfOut_" + tier + ".cfg"
+}
 func (ReconfOut) Trace() (string, string)         { return "Trace_ReconfOut.tla", "Trace_ReconfOut.cfg" }
 func (ReconfOut) Cap(tier string) int             { return 0 }
 func (ReconfOut) Layouts(tier string) int         { return 1 }
